@@ -824,7 +824,9 @@ func (ts *TestScript) applyScriptUpdates() {
 			if txtar.NeedsQuote(data) {
 				data1, err := txtar.Quote(data)
 				if err != nil {
-					ts.Fatalf("cannot update script file %q: %v", f.Name, err)
+					// We are running deferred, outside runLine, so nothing
+					// would catch the panic of ts.Fatalf: fail through T.
+					ts.t.Fatal(fmt.Sprintf("cannot update script file %q: %v", f.Name, err))
 					continue
 				}
 				data = data1
